@@ -18,7 +18,7 @@ def make_spec(g, allow):
                 m, tag = mutate_call(g, c)
                 if m is not None:
                     changed[(ei, k)] = m
-    return dict(cfgs=h.cfgs, execs=h.execs, flags=set(h.flags), changed=changed, mode=r.choice(UPD_MODES))
+    return dict(cfgs=h.cfgs, execs=h.execs, flags=set(h.flags), changed=changed, mode=r.choice(UPD_MODES), edit=suites.edit_choice(r, h.execs))
 
 
 def render(tag, spec):
@@ -33,6 +33,9 @@ def render(tag, spec):
     for ei, (name, calls) in enumerate(spec['execs']):
         texec += 1
         rec[ei] = emit_exec(w, texec, name, calls)
+    if spec.get('edit'):
+        w.add('fsedit ' + spec['edit'])
+    ps = suites.parse_snap_edited if spec.get('edit') else parse_snap
     ref = w.add('fsdump')
     ci, upd, cfgupd = spec['mode']
     w.add('reset')
@@ -86,7 +89,7 @@ def render(tag, spec):
             if b'_%d' in p:
                 continue
             if p.endswith((b'.snap', b'.snap.txt', b'.snap.yaml')) and not any(ch.isdigit() for ch in p.rsplit(b'/', 1)[1].split(b'.snap')[0][-2:].decode('latin1')):
-                ea, eb = parse_snap(a[p]), parse_snap(b[p])
+                ea, eb = ps(a[p]), ps(b[p])
                 if ea is None or eb is None:
                     return 'file %r is not well formed' % p
                 if [x[0] for x in ea] != [x[0] for x in eb]:
